@@ -9,7 +9,7 @@ git -C /repo worktree remove --force $WT 2>/dev/null
 git -C /repo worktree add --detach $WT HEAD -q || exit 2
 ( cd $WT && git apply $PATCH ) || { echo "patch does not apply" > $LOG; git -C /repo worktree remove --force $WT; exit 2; }
 HERE="$(cd "$(dirname "$0")/.." && pwd)"
-export VERIF_REPO=$WT VERIF_WORK=$HERE/work_seed_$NAME VERIF_EVID=/tmp/seedrun_${NAME}_evid VERIF_REPLAYS=/tmp/seedrun_${NAME}_replays
+export VERIF_TLC_CACHE_DIR=/tmp/verif_tlc_cache VERIF_REPO=$WT VERIF_WORK=$HERE/work_seed_$NAME VERIF_EVID=/tmp/seedrun_${NAME}_evid VERIF_REPLAYS=/tmp/seedrun_${NAME}_replays
 : > $LOG
 for C in "$@"; do
   echo "=== $C" >> $LOG
